@@ -517,6 +517,7 @@ func ruleStateMachineSchemaCheck(c *core.Ctx) {
 		c.Undecided(rule, "anchor/cpp/protocols.writeDefinitions", 0, "anchor not found")
 	} else {
 		var seq []gee.Row
+		var hdr gee.Row
 		in := false
 		for _, r := range prow {
 			if r.Kind != "emit" {
@@ -524,6 +525,7 @@ func ruleStateMachineSchemaCheck(c *core.Ctx) {
 			}
 			if strings.HasPrefix(r.Tmpl, "Version %s::VersionFromSchema(") {
 				in = true
+				hdr = r // the guards and loops the whole function body is emitted under
 				continue
 			}
 			if in {
@@ -538,11 +540,11 @@ func ruleStateMachineSchemaCheck(c *core.Ctx) {
 			if strings.HasPrefix(r.Tmpl, "if (schema == %s::schema_)") {
 				hasCur = true
 			}
-			if strings.HasPrefix(r.Tmpl, "else if (schema == previous_schemas_[%d])") && len(r.Loop) > 0 {
+			if strings.HasPrefix(r.Tmpl, "else if (schema == previous_schemas_[%d])") && len(r.Loop) > len(hdr.Loop) {
 				hasPrev = true
 			}
 			if strings.HasPrefix(strings.TrimSpace(r.Tmpl), "throw std::runtime_error(") {
-				lastThrow = len(r.Guards) == 0 && len(r.Loop) == 0
+				lastThrow = strings.Join(r.Guards, "∧") == strings.Join(hdr.Guards, "∧") && strings.Join(r.Loop, "/") == strings.Join(hdr.Loop, "/")
 			} else if strings.TrimSpace(r.Tmpl) != "}" && !strings.HasPrefix(r.Tmpl, "return Version::") {
 				if lastThrow {
 					lastThrow = false
